@@ -29,11 +29,20 @@ pub struct C01;
 /// reader entry points inside the shared child, which would block the whole exploration)
 pub static SKIP_READER_HANG_CLASS: std::sync::atomic::AtomicBool = std::sync::atomic::AtomicBool::new(false);
 
+/// set when the probes find that a batch entry point never returns for a target that reads nothing (so that this
+/// class is reported once and not fed to the shared child)
+pub static SKIP_UNREAD_DOCUMENT_CLASS: std::sync::atomic::AtomicBool = std::sync::atomic::AtomicBool::new(false);
+
 impl Prop for C01 {
     type Case = Case;
     fn check(&self, c: &Case) -> Verdict {
         let mut v = Verdict::default();
         let input = input_of(&c.tokens);
+        if SKIP_UNREAD_DOCUMENT_CLASS.load(std::sync::atomic::Ordering::Relaxed) && c.target == 15 && matches!(c.entry, 4 | 5) {
+            v.classes.push("skipped_unread_document_hang_class");
+            v.nontrivial = true;
+            return v;
+        }
         if SKIP_READER_HANG_CLASS.load(std::sync::atomic::Ordering::Relaxed) && is_reader_entry(c.entry) && reader_hang_suspect(&input) {
             // known finding (saphyr-parser's buffered input never terminates on these): probed separately in children
             v.classes.push("skipped_known_reader_hang_class");
@@ -447,6 +456,37 @@ pub fn run(ctx: &Ctx) -> i32 {
         }
     }
     SKIP_READER_HANG_CLASS.store(any_hang, std::sync::atomic::Ordering::Relaxed);
+    // second class: a target that reads nothing, through the batch entry points (each document must still be passed)
+    {
+        let probes2: [(&[u8], u8, u8); 4] = [(b"a\n", 15, 4), (b"a\n", 15, 5), (b"a\n---\nb\n", 15, 4), (b"[a, b]\n--- c\n", 15, 5)];
+        let res: Vec<(String, u8, bool, String)> = probes2
+            .par_iter()
+            .map(|(text, target, entry)| {
+                let hex: String = text.iter().map(|b| format!("{:02x}", b)).collect();
+                let args = vec!["C01".to_string(), "child-one".to_string(), hex.clone(), target.to_string(), entry.to_string(), "0".to_string()];
+                let (code, _out, timed_out) = run_child(&args, Duration::from_secs(3));
+                (String::from_utf8_lossy(text).into_owned(), *entry, timed_out || code != Some(0), hex)
+            })
+            .collect();
+        let mut any2 = false;
+        for (text, entry, bad, hex) in &res {
+            acc.evaluations += 1;
+            acc.execs += 1;
+            acc.nontrivial += 1;
+            if *bad {
+                any2 = true;
+                acc.add_violation(
+                    format!("hang|{:?}|{}|{}", text, TARGETS[15], ENTRIES[*entry as usize]),
+                    "hang",
+                    format!("{:?} into {} via {}: the call does not return (killed after 3 s / ran out of its 2 GiB address space)", text, TARGETS[15], ENTRIES[*entry as usize]),
+                    json!({"text": text, "hex": hex, "entry": entry, "target": 15}),
+                    json!({}),
+                );
+            }
+        }
+        SKIP_UNREAD_DOCUMENT_CLASS.store(any2, std::sync::atomic::Ordering::Relaxed);
+        acc.notes.insert("unread_document_class_probes".into(), json!({"probes": res.iter().map(|(t, e, b, _)| json!({"input": t, "entry": ENTRIES[*e as usize], "hangs": b})).collect::<Vec<_>>(), "class_skipped": any2}));
+    }
     acc.notes.insert("reader_hang_class_probes".into(), json!({"probes": probe_results.iter().map(|(t, e, b, _)| json!({"input": t, "entry": ENTRIES[*e as usize], "hangs": b})).collect::<Vec<_>>(), "class_skipped_for_reader_entries": any_hang}));
     let limit = Duration::from_secs(ctx.tier.pick(600, 7200));
     if let Err(e) = prod_range(ctx.tier, 0, n, limit, &mut acc, 0) {
